@@ -177,7 +177,7 @@ def run(tier):
 
     if tier == "quick":
         return e1check.run_e1(spec, tier, depth=4, state_budget=600000, time_budget=600, rule=RULE, assumptions=ASSUMPTIONS, post=post)
-    return e1check.run_e1(spec, tier, depth=6, state_budget=3000000, time_budget=1800, rule=RULE, assumptions=ASSUMPTIONS, post=post)
+    return e1check.run_e1(spec, tier, depth=6, state_budget=3000000, time_budget=1000, rule=RULE, assumptions=ASSUMPTIONS, post=post)
 
 
 def replay(data):
